@@ -4,9 +4,7 @@ ID = "C07"
 LEVEL = "model_checking"
 MAIN = "c07"
 MODULES = ["geom", "c07"]
-ACCESS = ["src__chess__movegen__tables__magics", "src__chess__movegen__tables__king", "src__chess__movegen__tables__knights",
-          "src__chess__movegen__tables__pawns", "src__chess__movegen__tables__between", "src__chess__movegen__tables__mod",
-          "src__chess__zobrist"]
+ACCESS = None
 DUMP = ["ATTACKS", "ROOK_NOT_MASKS", "BISHOP_NOT_MASKS", "KNIGHT", "KING", "PAWN", "BETWEEN"]
 PARALLEL = 16
 
